@@ -116,6 +116,24 @@ theorem res_snoc (root : Nat × List α) (L : List (Ent α)) (e : Ent α) (hq : 
       rw [res_concat]
       simp [hne, ih]
 
+/-- every attachment in a resolution comes from the root or from one of the loggers -/
+theorem res_mem (root : Nat × List α) (L : List (Ent α)) (p : List Name) (a : α)
+    (h : a ∈ (res root L p).2) : a ∈ root.2 ∨ ∃ e ∈ L, a ∈ e.apps := by
+  induction p using snoc_induction with
+  | hnil => exact Or.inl h
+  | hsnoc p c ih =>
+    rw [res_concat] at h
+    cases hl : lookupE L (p ++ [c]) with
+    | none => rw [hl] at h; exact ih h
+    | some e =>
+      rw [hl] at h
+      simp only [List.mem_append] at h
+      rcases h with h | h
+      · exact Or.inr ⟨e, (lookupE_comps hl).2, h⟩
+      · cases hadd : e.additive with
+        | false => simp [hadd] at h
+        | true => simp only [hadd, if_true] at h; exact ih h
+
 /-- `res` sees the logger list only through look-up by component list -/
 theorem res_congr (root : Nat × List α) (L L' : List (Ent α)) (h : ∀ p, lookupE L p = lookupE L' p)
     (p : List Name) : res root L p = res root L' p := by
